@@ -137,7 +137,7 @@ def member_patterns(fam, r, c, full):
         vo = [d for d in vo if d in ("A", "B", "M0", f"M{r - 1}", "N0", "U0", "U1", "U2", "C1", "Q1.0", f"Q1.{r - 1}")]
     for t in vt:
         for x in vo:
-            for op in ("add", "sub", "mul", "asg"):
+            for op in ("add", "sub", "mul", "asg") + (("ctor",) if c <= 3 else ()):
                 pats.append(f"{t} {op} {x}")
         for x in scalar_args(fam, r, c):
             if full or x[0] == "k" or x.startswith("@" + t + ".") or x.startswith("@M.") or x.startswith("@A."):
@@ -145,7 +145,7 @@ def member_patterns(fam, r, c, full):
     if fam == "v":
         for t in mat_objects(r, c, True):
             for x in mat_objects(r, c, False):
-                for op in ("add", "sub", "asg"):
+                for op in ("add", "sub", "asg", "ctor"):
                     pats.append(f"{t} {op} {x}")
             for x in scalar_args(fam, r, c):
                 pats.append(f"{t} smul {x}")
@@ -156,14 +156,14 @@ def random_stmt(rr, fam, r, c):
     k = r * c
     if fam == "v" and rr.chance(1, 4):
         t = rr.choice(mat_objects(r, c, True) + ["P"])
-        op = rr.choice(["add", "sub", "asg", "smul", "smul", "set"])
+        op = rr.choice(["add", "sub", "asg", "ctor", "smul", "smul", "set"])
         if op == "smul":
             return f"{t} smul {rr.choice(scalar_args(fam, r, c))}" if rr.chance(2, 3) else f"{t} smul k{rr.range(-9, 9)}"
         if op == "set":
             return f"{t} set {rr.below(k + 1)}:{rr.range(-9, 9)}"
         return f"{t} {op} {rr.choice(mat_objects(r, c, False) + [f'V{rr.below(k + 3)}'])}"
     t = rr.choice(vec_objects(fam, r, c, True) + ["B"])
-    op = rr.choice(["add", "sub", "mul", "asg", "smul", "smul", "set"])
+    op = rr.choice(["add", "sub", "mul", "asg", "ctor", "smul", "smul", "set"])
     if op == "smul":
         return f"{t} smul {rr.choice(scalar_args(fam, r, c))}" if rr.chance(2, 3) else f"{t} smul k{rr.range(-9, 9)}"
     if op == "set":
@@ -251,13 +251,13 @@ def member_batches(rng, thorough):
     # ---- two-statement sequences, exhaustive over small vectors for the aliasing core; seeded longer sequences on [-9,9]
     r2 = rng.fork("member-seq")
     ops = []
-    core = ["A smul @A.0", "A add A", "A mul A", "M0 add M1", "M1 add M1", "M0 smul @M1.0", "M smul @M.1", "A asg M0", "M0 asg A", "M0 asg N1", "M0 asg M1",
+    core = ["A smul @A.0", "A add A", "A mul A", "M0 add M1", "M1 add M1", "M0 smul @M1.0", "M smul @M.1", "A asg M0", "M0 asg A", "M0 asg N1", "M0 asg M1", "A ctor M1", "M1 ctor M0",
             "U1 add U0", "A sub A", "M sub M", "M add P", "Q1.0 add U1", "V1 smul @U1.0", "A set 0:2", "M set 1:-1"]
     for c in (1, 2, 3):
         for s1 in core:
             for s2 in core:
                 ops.append(f"mems v 3 {c} q {s1} {s2}")
-    yield Batch("member-two-step", ops, exhaustive=True, note="all ordered pairs of 19 core statements (save-mutate-restore, scale after add, write then read through a view ...), dimension 1-3")
+    yield Batch("member-two-step", ops, exhaustive=True, note="all ordered pairs of 21 core statements (save-mutate-restore, scale after add, write then read through a view ...), dimension 1-3")
     ops = []
     for _ in range(15000 if thorough else 3000):
         fam = r2.choice("vvvd")
